@@ -24,6 +24,7 @@ type c12qParams struct {
 	parallelism int
 	bound       int
 	noClose     bool
+	partial     bool // the target reports per-recipient statuses
 }
 
 var c12qSeq int
@@ -33,7 +34,10 @@ func c12qScenario(scratch string, p c12qParams) vx.ScheduleScenario {
 		c12qSeq++
 		dir := filepath.Join(scratch, fmt.Sprintf("q%d", c12qSeq))
 		os.MkdirAll(dir, 0o755)
-		tgt := &qhTarget{name: "target", decide: func(d *qhDeliv, stage, rcpt string) int {
+		tgt := &qhTarget{name: "target", partial: p.partial, decide: func(d *qhDeliv, stage, rcpt string) int {
+			if c, ok := p.script[fmt.Sprintf("%s/%d/%s/%s", d.MsgID, d.Attempt, stage, rcpt)]; ok {
+				return c
+			}
 			if c, ok := p.script[fmt.Sprintf("%s/%d/%s", d.MsgID, d.Attempt, stage)]; ok {
 				return c
 			}
@@ -205,6 +209,9 @@ func TestVerifC12Queue(t *testing.T) {
 		c12qScenario(scratch, c12qParams{name: "Q0-deliver-noclose", msgs: []qhMsg{m1two}, script: map[string]int{"m1/1/body": qhT}, parallelism: 1, bound: b, noClose: true}),
 		c12qScenario(scratch, c12qParams{name: "Q1-retry-vs-close", msgs: []qhMsg{m1}, script: map[string]int{"m1/1/body": qhT}, parallelism: 1, bound: b}),
 		c12qScenario(scratch, c12qParams{name: "Q2-commit-vs-close", msgs: []qhMsg{m1}, late: []qhMsg{m2}, parallelism: 1, bound: b}),
+		// one recipient delivered, the other retried, two attempts may run at once: the retry
+		// re-reads the recipient list from disk, so it must not start before the list is there
+		c12qScenario(scratch, c12qParams{name: "Q5-partial-retry-p2", msgs: []qhMsg{m1two}, script: map[string]int{"m1/1/status/b1@example.org": qhT}, partial: true, parallelism: 2, bound: 2, noClose: true}),
 		c12qScenario(scratch, c12qParams{name: "Q3-two-inflight-p1", msgs: []qhMsg{m1, m2}, script: map[string]int{"m2/1/start": qhT}, parallelism: 1, bound: b}),
 	}
 	if vx.Thorough() {
